@@ -145,6 +145,9 @@ def rel(path):
     for pre in ("/repo/",):
         if path.startswith(pre):
             return path[len(pre):]
+    m = re.match(r"/var/tmp/lexmut-[^/]+/(.*)", path)
+    if m:
+        return m.group(1)
     # cargo passes paths relative to the package dir for workspace members
     return path
 
@@ -366,6 +369,24 @@ def fold(fn, op, depth=0):
         a = fold(fn, rv[2], depth + 1)
         return None if a is None else -a
     return None
+
+
+def copy_root(fn, op, depth=0):
+    """Follow single-definition copy chains (`_3 = copy _1`) back to the original local."""
+    l = op_local(op) if isinstance(op, list) else op
+    while l is not None and depth < 16:
+        if l <= fn.argc:
+            return l
+        ds = fn.defs().get(l, [])
+        if len(ds) != 1 or ds[0][3]:
+            return l
+        rv = ds[0][2]
+        if rv[0] == "use" and op_local(rv[1]) is not None:
+            l = op_local(rv[1])
+            depth += 1
+            continue
+        return l
+    return l
 
 
 def guarded(col, rule_fn, *args):
